@@ -367,8 +367,14 @@ func (f *file) ReadDir(n int) ([]hackpadfs.DirEntry, error) {
 	start, end := f.offset, f.offset+int64(n)
 	if n <= 0 {
 		start, end = 0, int64(len(dirNames))
-	} else if end > int64(len(dirNames)) {
-		end = int64(len(dirNames))
+	} else {
+		if start >= int64(len(dirNames)) {
+			// no entries remain
+			return nil, io.EOF
+		}
+		if end > int64(len(dirNames)) {
+			end = int64(len(dirNames))
+		}
 	}
 	offsetAdd := end - start
 
